@@ -18,13 +18,14 @@ FILES = [MODEL, PROV, RREL, TOOLS, SCOP, MM]
 ATTRIB = [
     (MODEL, "get_model", ("C05", "C06")), (MODEL, "get_parent_of_type", ("C05",)), (MODEL, "get_children", ("C05",)), (MODEL, "get_children_of_type", ("C05",)),
     (MODEL, "get_location", ("C06", "C33")), (MODEL, "textx_isinstance", ("C03", "C07")), (MODEL, "textxerror_wrap", ("C33",)),
-    (MODEL, "parse_tree_to_objgraph", ("C09", "C13")), (MODEL, "parse_tree_to_objgraph.process_node", ("C01", "C02")), (MODEL, "parse_tree_to_objgraph.process_match", ("C01", "C04")),
+    (MODEL, "parse_tree_to_objgraph", ("C09", "C13")), (MODEL, "parse_tree_to_objgraph.process_node", ("C01", "C02", "C05")), (MODEL, "parse_tree_to_objgraph.process_match", ("C01", "C04")),
     (MODEL, "parse_tree_to_objgraph.call_obj_processors", ("C13",)), (MODEL, "ReferenceResolver", ("C09", "C07")), (MODEL, "ReferenceResolver.resolve_one_step", ("C09", "C07", "C32", "C34")),
     (MODEL, "_end_model_construction", ("C14",)), (MODEL, "get_model_parser", ("C16",)),
     (PROV, "PlainName", ("C07",)), (PROV, "FQN", ("C10",)), (PROV, "ImportURI", ("C17",)), (PROV, "FQNImportURI", ("C17", "C10")), (PROV, "PlainNameImportURI", ("C17", "C07")),
     (PROV, "GlobalRepo", ("C17",)), (PROV, "RelativeName", ("C09",)), (PROV, "ExtRelativeName", ("C09",)),
     (RREL, "", ("C11",)), (RREL, "create_rrel_scope_provider", ("C11", "C16")), (TOOLS, "", ("C09", "C11")), (SCOP, "", ("C17",)), (SCOP, "ModelRepository.remove_model", ("C18",)), (SCOP, "remove_models_from_repositories", ("C18",)),
     (MM, "TextXMetaModel.internal_model_from_file", ("C17",)), (MM, "TextXMetaModel._init_obj_attrs", ("C01",)), (MM, "TextXMetaModel.process", ("C33", "C13")),
+    (MM, "TextXMetaModel.has_obj_processor", ("C13",)), (MM, "TextXMetaModel.register_obj_processors", ("C13",)), (MM, "TextXMetaModel.register_scope_providers", ("C32",)),
     ("textx/model_params.py", "", ("C27",)),
     (LANG, "TextXVisitor.visit_str_match", ("C20", "C21", "C01", "C02")), (LANG, "TextXVisitor.visit_re_match", ("C20", "C01")), (LANG, "TextXVisitor.visit_repeat_modifiers", ("C01", "C21", "C02")),
     (LANG, "TextXVisitor.visit_obj_ref", ("C32", "C11")), (LANG, "TextXVisitor.visit_assignment", ("C01", "C02", "C32")), (LANG, "TextXVisitor.visit_textx_rule", ("C01", "C22")),
@@ -50,8 +51,11 @@ def _is_provider_call(c):
 def _source_kind(x):
     """is the expression itself a read of a possibly-falsy present value?  ('parent link' | 'attribute value' | 'result of f()' | None)"""
     if isinstance(x, ast.Attribute) and x.attr == "parent": return "parent link"
+    if isinstance(x, ast.Subscript) and "_inst_stack" in ast.unparse(x.value): return "object on the instance stack"
+    if isinstance(x, ast.Subscript) and isinstance(x.value, ast.Attribute) and x.value.attr in ("_obj_processors", "obj_processors", "scope_providers"): return "registered callable"
     if isinstance(x, ast.Call):
         nm = callee_name(x)
+        if nm == "get" and isinstance(x.func, ast.Attribute) and isinstance(x.func.value, ast.Attribute) and x.func.value.attr in ("_obj_processors", "obj_processors", "scope_providers"): return "registered callable"
         if nm == "getattr" and len(x.args) >= 2:
             a1 = x.args[1]
             if isinstance(a1, ast.Constant): return "parent link" if a1.value == "parent" else None
@@ -63,6 +67,8 @@ def may_obj(fi, expr, at, depth=0, seen=None):
     """kind of possibly-falsy value `expr` may hold at `at` (any reaching definition), or None"""
     k = _source_kind(expr)
     if k: return k
+    if isinstance(expr, ast.IfExp) and depth <= 6:
+        return may_obj(fi, expr.body, at, depth + 1, seen) or may_obj(fi, expr.orelse, at, depth + 1, seen)
     if depth > 6 or not isinstance(expr, ast.Name): return None
     node = fi.node_of(at)
     if node is None: return None
